@@ -64,6 +64,14 @@ def strip_generic_args(name):
     return name[:i - 2] if i >= 2 and name[i - 2:i] == '::' else name
 
 
+def parsed_type_from_str(F, name):
+    """the body of `<T as FromStr>::from_str` for a call `str::parse::<T>` when T is a type of the crate, else None"""
+    m = re.search(r'\bstr>?::parse::<(.+)>$', name)
+    if not m: return None
+    try: return F.one(m.group(1).strip(), 'from_str', trait='FromStr')
+    except Exception: return None
+
+
 def _hp(p):
     """hashable projection"""
     if isinstance(p, dict):
@@ -452,6 +460,7 @@ class Sx:
         if self.enter is None or self.depth >= 3: return None
         name = t['r'] or t['f']
         cb = self.F.bodies.get(name) or self.F.bodies.get(strip_generic_args(name))
+        if cb is None: cb = parsed_type_from_str(self.F, name)          # `s.parse::<T>()` is `<T as FromStr>::from_str(s)`
         if cb is None or cb is self.b or cb.kind != 'fn' or cb.argc != len(args) or not self.enter(cb): return None
         env = {}; back = []
         for i, a in enumerate(args):
@@ -853,6 +862,38 @@ def check_literals(ctx, rule, body, want, err_variant, exact=False):
     return tab
 
 
+def keyword_literals(ctx, b):
+    """the literals a section reader compares its keyword with, in the reader itself or in the FromStr impl of a type of the crate
+    it parses the keyword into (`fields[0].parse::<BoundType>()`)"""
+    lits = set(literal_table(b))
+    for c in b.calls:
+        pb = parsed_type_from_str(ctx.F, c.name)
+        if pb is not None:
+            ctx.fn(pb); lits |= set(literal_table(pb))
+    return lits
+
+
+def keyword_table(ctx, rule, b, want, err_variant, val=None):
+    """T-TABLE on paths: the section reader `b` accepts (has a path that ends without error for) every keyword the format requires,
+    and a keyword it does not know -- every comparison with a literal fails -- ends in MpsParseError::<err_variant> on every path.
+    The keyword may be matched as a string in the reader, or parsed into an enum first (literal -> variant in a FromStr impl,
+    variant -> arm in the reader): the table is the composition either way.  Returns the accepted keywords."""
+    lits = keyword_literals(ctx, b)
+    got = set()
+    for lit in sorted(lits):
+        res = keyword_effects(ctx, rule + '/keywords', b, {lit}, val)
+        if res is None: return set()
+        if res: got.add(lit)
+    ctx.check(set(want) <= got, rule + '/keywords', 'T-TABLE', b.name, 'accepted keywords %s, the format requires %s' % (sorted(got), sorted(want)), b.site(), table=sorted(got))
+    orc = KeywordCase(set(), val)
+    ps = sx_paths(ctx, rule + '/unknown-is-error', 'T-TABLE', b, orc, enter=keyword_parsers)
+    if ps is not None:
+        sx = Sx(ctx, b, orc); rets = [p for p in ps if p.end == 'return']
+        def typed(p): return p.value is not None and sx.variant(p.value, p) == 'Err' and any(x[0] == 'agg' and x[1].endswith('MpsParseError::' + err_variant) for x in sx_walk(p.value))
+        ctx.check(bool(rets) and all(typed(p) for p in rets), rule + '/unknown-is-error', 'T-TABLE', b.name, 'an unknown keyword does not lead to MpsParseError::%s' % err_variant, b.site())
+    return got
+
+
 def arm_region(body, tab, lit):
     t, f, c = tab[lit]
     others = {x[0] for l, x in tab.items() if x[0] != t}
@@ -1079,12 +1120,17 @@ def _line_fields(v):
     return sorted(out)
 
 
+def keyword_parsers(cb):
+    """the functions a section reader may delegate the recognition of its keyword to: FromStr impls of the crate (`fields[0].parse::<BoundType>()`)"""
+    return cb.hdr.get('item') == 'from_str' and (cb.hdr.get('trait') or '').endswith('FromStr')
+
+
 def keyword_effects(ctx, rule, b, true, val, flags=None, objrow=None):
     """effects of one line on the parsed tables, per successfully completed path: set of (table, op[, value]) and the
     line fields keys / numbers come from; None if the function cannot be evaluated.  A row of the coefficient matrix
     reached through a lookup in `a` is the table 'a[row]'."""
     orc = KeywordCase(true, val, flags, objrow)
-    ps = sx_paths(ctx, rule, 'T-BRANCHFX', b, orc)
+    ps = sx_paths(ctx, rule, 'T-BRANCHFX', b, orc, enter=keyword_parsers)
     if ps is None: return None
     sx = Sx(ctx, b, orc); out = []
     for p in ps:
@@ -1122,13 +1168,52 @@ class NumbersParse(SxOracle):
         return 'Ok' if v[0] == 'call' and v[1] == 'parse' else None
 
 
+def pair_loops(ctx, b):
+    """the loop of a section reader that walks the (row, value) pairs of the line (parameter 2)"""
+    loops = [lo for lo in T.for_loops(b) if 2 in ctx.S.slice_operand(b, lo[0].args[0]).params]
+    loops = [lo for lo in loops if any(c.bb in lo[4] and c.item == 'parse' for c in b.calls)] or loops      # (the number may be parsed in a closure / helper)
+    return sorted(loops, key=lambda lo: -len(lo[4]))[:1]
+
+
+class UndeclaredRow(KeywordCase):
+    """a data line whose row name is in none of the tables of declared rows (not in a, eq, ge, le) and is not the objective row"""
+    def __init__(self): KeywordCase.__init__(self, set(), 1.5, None, False)
+
+    def call(self, sx, node, st):
+        _, item, name, args, bi, occ = node
+        if item in ('contains', 'remove', 'take', 'contains_key') and re.search(r'Hash(Map|Set)::<', name) and len(args) == 2 and sx_table_of(args[0]) in ('a', 'eq', 'ge', 'le') and _key_class(args[1]) == 'row':
+            return ('agg', 'std::option::Option::None', (), ()) if item == 'take' or (item == 'remove' and 'HashMap' in name) else _cbool(False)
+        return KeywordCase.call(self, sx, node, st)
+
+    def variant(self, sx, v, st):
+        if v[0] == 'call' and v[1] in ('get', 'get_mut', 'get_key_value', 'remove') and 'HashMap::<' in v[2] and len(v[3]) == 2 and sx_table_of(v[3][0]) == 'a' and _key_class(v[3][1]) == 'row': return 'None'
+        return KeywordCase.variant(self, sx, v, st)
+
+
+def undeclared_never_skipped(ctx, rule, b, what):
+    """an entry naming a row that was not declared is an error wherever the test for it sits: for such a row every path of one
+    iteration of the pairs loop ends in Err(UnknownRowName) (or a panic) -- none goes on to the next pair or returns Ok"""
+    loops = pair_loops(ctx, b)
+    if not loops:
+        ctx.bad(rule, 'T-ERRFLOW', b.name, 'no loop over the (row, value) pairs of %s' % what, b.site()); return
+    ps = sx_loop_paths(ctx, rule, 'T-ERRFLOW', b, UndeclaredRow(), loops[0])
+    if ps is None: return
+    sx = Sx(ctx, b, UndeclaredRow()); probs = []; n = 0
+    for p_ in ps:
+        if p_.end in ('panic', 'unreachable', 'cut'): continue          # (cut: an inner retry loop that was not followed further)
+        n += 1
+        v = p_.value if p_.value is not None else ('undef', 0)
+        if p_.end == 'stop': probs.append('goes on to the next pair')
+        elif p_.end != 'return' or sx.variant(v, p_) != 'Err': probs.append('ends with %s' % (sx_str(v, 2) if p_.end == 'return' else p_.end))
+        elif not any(x[0] == 'agg' and x[1].endswith('MpsParseError::UnknownRowName') for x in sx_walk(v)): probs.append('the error is not UnknownRowName')
+    ctx.check(n > 0 and not probs, rule, 'T-ERRFLOW', b.name, 'an entry of %s naming an undeclared row %s' % (what, '; '.join(sorted(set(probs))[:2]) or 'is never read'), b.site(loops[0][0].bb))
+
+
 def all_pairs_processed(ctx, rule, b, what):
     """every (row, value) pair of a data line is processed: the line's fields (parameter 2) are walked by a loop, no adaptor drops pairs, and nothing leaves the loop with success before the last pair (a `return Ok(..)` / `break` on
     a path without error where `continue` is meant) -- decided on the paths of one iteration: each ends at the loop header, in an
     error, or in a panic"""
-    loops = [lo for lo in T.for_loops(b) if 2 in ctx.S.slice_operand(b, lo[0].args[0]).params]
-    loops = [lo for lo in loops if any(c.bb in lo[4] and c.item == 'parse' for c in b.calls)] or loops      # (the number may be parsed in a closure / helper)
-    loops = sorted(loops, key=lambda lo: -len(lo[4]))[:1]
+    loops = pair_loops(ctx, b)
     if not loops:
         ctx.bad(rule, 'T-LOOPMUST', b.name, 'no loop over the (row, value) pairs of %s' % what, b.site()); return
     lo = loops[0]; nextc, header, some_bb, none_bb, blocks = lo
@@ -1480,7 +1565,7 @@ def parser_rules(ctx):
     # ---- rows
     b = ctx.method('C17.rows/anchor', ST, 'read_row_field')
     if b is not None:
-        tab = check_literals(ctx, 'C17.keywords/rows', b, {'N', 'E', 'G', 'L'}, 'InvalidRowType')
+        tab = keyword_table(ctx, 'C17.keywords/rows', b, {'N', 'E', 'G', 'L'}, 'InvalidRowType')
         # per row type, on values: E/G/L put the row (named by field 1) into eq/ge/le and create its empty coefficient row; N names
         # the objective once and creates nothing
         want = {'E': {('eq', 'insert'), ('a', 'insert', 'empty-row')}, 'G': {('ge', 'insert'), ('a', 'insert', 'empty-row')}, 'L': {('le', 'insert'), ('a', 'insert', 'empty-row')}}
@@ -1503,6 +1588,7 @@ def parser_rules(ctx):
     for fn in ('read_column_field', 'read_range_field'):
         b = ctx.method('C17.keywords/undeclared-row/%s/anchor' % fn, ST, fn)
         if b is None: continue
+        undeclared_never_skipped(ctx, 'C17.keywords/undeclared-row/%s/never-skipped' % fn, b, 'a COLUMNS line' if fn == 'read_column_field' else 'a RANGES line')
         # the row named by an entry is looked up in `a` (get / get_mut / get_key_value); when it is not there, every path through
         # the lookup returns Err(UnknownRowName) -- decided on paths, so `?`, match, let-else, helpers are the same
         def is_lookup(v): return v[1] in ('get_mut', 'get', 'get_key_value') and 'HashMap::<' in v[2] and len(v[3]) == 2 and sx_table_of(v[3][0]) == 'a' and _key_class(v[3][1]) == 'row'
@@ -1543,7 +1629,7 @@ def parser_rules(ctx):
     # ---- bounds
     b = ctx.method('C17.bounds/anchor', ST, 'read_bound_field')
     if b is not None:
-        tab = check_literals(ctx, 'C17.keywords/bounds', b, {'UP', 'LO', 'FX', 'MI', 'PL', 'FR', 'BV', 'LI', 'UI'}, 'InvalidBoundType')
+        tab = keyword_table(ctx, 'C17.keywords/bounds', b, {'UP', 'LO', 'FX', 'MI', 'PL', 'FR', 'BV', 'LI', 'UI'}, 'InvalidBoundType', 1.5)
         # per bound type, on values (a positive and a negative number): effect on the parsed tables, column from field 2, number from field 3
         want = {
             'LO': {('l', 'insert', 'value')}, 'UP': {('u', 'insert', 'value')}, 'FX': {('l', 'insert', 'value'), ('u', 'insert', 'value')},
@@ -2106,5 +2192,5 @@ def check(ctx):
     # count does not depend on how the code is laid out)
     for fam, n in {'C17.bounds': 19, 'C17.columns': 3, 'C17.convert': 6, 'C17.convert.cover': 15, 'C17.convert.defaults': 5, 'C17.convert.kind': 2,
                    'C17.convert.rows': 5, 'C17.convert.sense': 1, 'C17.convert.sign': 6, 'C17.convert.terms': 1, 'C17.convert.vars': 5, 'C17.defaults': 1, 'C17.entry': 2,
-                   'C17.keywords': 33, 'C17.lines': 3, 'C17.names': 2, 'C17.ranges': 9, 'C17.rhs': 4, 'C17.rows': 4}.items():
+                   'C17.keywords': 35, 'C17.lines': 3, 'C17.names': 2, 'C17.ranges': 9, 'C17.rhs': 4, 'C17.rows': 4}.items():
         ctx.floor(fam, n)
